@@ -17,6 +17,7 @@ Record wake_cond (T : ftables) : Prop := {
   (* tables consulted by non-runners leave a queue that is being run alone *)
   wc_desync_owned : forall st, owned st = true -> (T.(ft_base).(t_desync) st).1 = st;
   wc_desync_idle : T.(ft_base).(t_desync) Idle = (Pending, DASchedule);
+  wc_desync_sched : forall st st', T.(ft_base).(t_desync) st = (st', DASchedule) -> st = Idle /\ st' = Pending;
   wc_desync_other : forall st st' act, T.(ft_base).(t_desync) st = (st', act) -> st <> Idle -> st' = st;
   wc_resched_idle : forall ne, T.(ft_base).(t_resched) Idle ne = if ne then (Pending, true) else (Idle, false);
   wc_resched_wfp : forall f ne, T.(ft_base).(t_resched) (WaitingForPoll f) ne = (WaitingForPoll f, true);
